@@ -19,12 +19,37 @@ type Recorder struct {
 	mu     sync.Mutex
 	events []Event
 	start  time.Time
+	// Cap > 0 bounds the trace: once Cap events are recorded, further events are dropped (and counted) unless their
+	// "ev" is in Always.  A scenario on a defective tree can loop at full speed (endless re-delivery, rejoin loops);
+	// the verdict is decided on the prefix, the bound keeps the check's run time and memory finite.
+	Cap     int
+	Always  map[string]bool
+	dropped int
+}
+
+// keep reports (under mu) whether e is recorded; the first dropped event leaves an "overflow" marker.
+func (r *Recorder) keep(e Event) bool {
+	if r.Cap <= 0 || len(r.events) < r.Cap {
+		return true
+	}
+	if name, _ := e["ev"].(string); r.Always[name] {
+		return true
+	}
+	if r.dropped == 0 {
+		r.events = append(r.events, Event{"ev": "overflow", "seq": len(r.events) + 1, "ts": int(time.Since(r.start) / time.Millisecond)})
+	}
+	r.dropped++
+	return false
 }
 
 func New() *Recorder { return &Recorder{start: time.Now()} }
 
 func (r *Recorder) Emit(e Event) {
 	r.mu.Lock()
+	if !r.keep(e) {
+		r.mu.Unlock()
+		return
+	}
 	e["seq"] = len(r.events) + 1
 	e["ts"] = int(time.Since(r.start) / time.Millisecond)
 	r.events = append(r.events, e)
@@ -36,7 +61,7 @@ func (r *Recorder) Emit(e Event) {
 func (r *Recorder) EmitWith(f func() Event) {
 	r.mu.Lock()
 	e := f()
-	if e != nil {
+	if e != nil && r.keep(e) {
 		e["seq"] = len(r.events) + 1
 		e["ts"] = int(time.Since(r.start) / time.Millisecond)
 		r.events = append(r.events, e)
